@@ -19,9 +19,10 @@ EXTENDS ObsPrelude
 Tol == 100        \* 1e-7 relative (worst rounding error measured on the repaired tree: 1e-12)
 
 OneSidedDoubling == {"pburg", "pyule", "pcovar", "pmodcovar", "parma", "pma", "pminvar", "MultiTapering",
-                     "MultiTapering:adapt", "MultiTapering:unity"}
+                     "MultiTapering:adapt", "MultiTapering:unity", "MultiTapering:precomputed"}
 ReversalInvariant == {"Periodogram", "pcorrelogram", "pyule", "pburg", "pmodcovar", "MultiTapering", "pminvar",
-                      "MultiTapering:adapt", "MultiTapering:unity"}
+                      "MultiTapering:adapt", "MultiTapering:unity", "MultiTapering:precomputed"}
+\* the periodogram class with any named window ("Periodogram:<window>"): every window is symmetric (C20)
 
 Clauses(e) ==
     IF e.ev = "shift" THEN
@@ -35,7 +36,11 @@ Clauses(e) ==
           <<"onesided-is-twice-the-first-half", e.raised \/ e.cls \notin OneSidedDoubling \/ Small(e.dev, Tol)>> }
     ELSE IF e.ev = "reversal" THEN
         { <<"no-exception", ~e.raised>>,
-          <<"time-reversal-invariant", e.raised \/ e.cls \notin ReversalInvariant \/ Small(e.dev, Tol)>> }
+          <<"time-reversal-invariant", e.raised \/ (e.cls \notin ReversalInvariant /\ ~e.periodogram) \/ Small(e.dev, Tol)>> }
+    ELSE IF e.ev = "dtype" THEN
+        \* single-precision complex samples are complex data: a two-sided estimate close to the double-precision one
+        { <<"no-exception", ~e.raised>>,
+          <<"complex64-is-complex-data", e.raised \/ (e.len_ok /\ Small(e.dev, 1000000))>> }
     ELSE { <<"unknown-event", FALSE>> }
 
 VARIABLES l, fails
